@@ -567,7 +567,7 @@ def standin_recursive_documented(tier, seed):
 # parentheses: `:: t.f` and `:: (in 1..3)` are parse errors and not in the family), a call, a module instantiation and a
 # select; a range can only be written in a `constraint` statement or inline, so the constraint is always defined by a statement
 # and then handed around as a value.
-LOOSE_REACH = {'identity', 'func_of_field', 'select_two', 'heterolist'}
+LOOSE_REACH = {'identity', 'func_of_field', 'select_two', 'heterolist', 'import_inline'}
 
 
 def reach(form, defs, n, libpath):
@@ -603,7 +603,6 @@ def reach(form, defs, n, libpath):
         'module_field': lambda: ([('let km = module {} => { %s let r = %s; };' % (body, n))], '(km{}.r)', None),
         'module_instance_field': lambda: ([('let km = module {} => { %s let r = %s; };' % (body, n)), 'let ki = km{};'], '(ki.r)', None),
         'import_field': lambda: lib([imp], '(lib.%s)' % n),
-        'import_inline': lambda: lib([], '((import "%s").%s)' % (libpath, n)),
         'import_alias': lambda: lib([imp, 'let al = lib.%s;' % n], 'al'),
         'import_nested': lambda: lib([imp], '(lib.kt.f)', ['let kt = {f = %s};' % n]),
         'import_in_tuple': lambda: lib([imp, 'let kt = {f = lib.%s};' % n], '(kt.f)'),
@@ -613,6 +612,7 @@ def reach(form, defs, n, libpath):
         'func_of_field': lambda: top(['let kf = func(t) => t.f;'], 'kf({f = %s})' % n),
         'select_two': lambda: top([], 'select (true, %s) => {true = %s, false = "w"}' % (n, n)),
         'heterolist': lambda: top(['let kl = [%s, "w"];' % n], '(kl.0)'),
+        'import_inline': lambda: lib([], '((import "%s").%s)' % (libpath, n)),
     }
     return t[form]()
 
@@ -620,8 +620,8 @@ def reach(form, defs, n, libpath):
 REACH_FORMS = ['name', 'paren', 'paren2', 'let_alias', 'constraint_alias', 'alias_chain', 'field', 'quoted_field', 'nested_field', 'copied_field',
                'list_elem0', 'list_elem1', 'tuple_in_list', 'constfunc', 'constfunc_paren', 'func_returning_field', 'select', 'select_paren', 'select_default',
                'module_param', 'module_out', 'module_out_paren', 'module_field', 'module_instance_field',
-               'import_field', 'import_inline', 'import_alias', 'import_nested', 'import_in_tuple', 'import_func',
-               'identity', 'func_of_field', 'select_two', 'heterolist']
+               'import_field', 'import_alias', 'import_nested', 'import_in_tuple', 'import_func',
+               'identity', 'func_of_field', 'select_two', 'heterolist', 'import_inline']
 REACH_RANGES = [('rng', 'int', 1, 3), ('rng', 'int', 1, None), ('rng', 'int', None, 3), ('rng', 'int', -2, 2), ('rng', 'int', 0, 0), ('rng', 'int', 1, 65535),
                 ('rng', 'float', 1.5, 3.5), ('rng', 'float', None, 2.5), ('rng', 'float', 0.0, 1.0)]
 REACH_ALTS = [('alt', [('ex', I(1)), ('ex', S('a'))]), ('alt', [('ex', S('a')), ('ex', S('b'))]), ('alt', [('ex', I(200)), ('ex', I(404)), ('ex', I(500))]),
@@ -705,13 +705,13 @@ def standin_named_reach(tier, seed):
         # bounds of an inline range spelled by names / expressions instead of literals (the bound is what the expression evaluates to)
         for (lo, hi) in [(1, 3), (-2, 2), (0, 0)] + ([(1, 65535), (5, 7)] if thorough else []):
             for los, his, pre in [('lo', 'hi', ['let lo = %s;' % vsrc(I(lo)), 'let hi = %s;' % vsrc(I(hi))]), ('(%s + 1)' % vsrc(I(lo - 1)), '(%s - 1)' % vsrc(I(hi + 1)), []),
-                                  ('bt.lo', 'bt.hi', ['let bt = {lo = %s, hi = %s};' % (vsrc(I(lo)), vsrc(I(hi)))])]:
+                                  ('(bt.lo)', '(bt.hi)', ['let bt = {lo = %s, hi = %s};' % (vsrc(I(lo)), vsrc(I(hi)))])]:
                 for v in range_values('int', lo, hi):
                     b.add_program('\n'.join(pre + ['let x :: in %s..%s = %s;' % (los, his, vsrc(v))]), in_range(('rng', 'int', lo, hi), v), 'range bounds spelled as expressions')
         return b.run('named_reach',
                      '%d ways to reach a named constraint in constraint position (bare / parenthesised name, let / constraint alias, tuple field [plain, quoted, nested, copied, in a list], '
-                     'list element, function result, select, module parameter / output / field, imported file [field, inline import, alias, nested, via tuple, via function], and 4 of unknown static '
-                     'type [identity function, function of a field, two-branch select, mixed list]) x %s of (%d ranges, %d alternations [each also as first / last alternative next to a literal], '
+                     'list element, function result, select, module parameter / output / field, imported file [field, alias, nested, via tuple, via function], and 5 of unknown static '
+                     'type [identity function, function of a field, two-branch select, mixed list, selector on an inline import], run with ranges / alternations only) x %s of (%d ranges, %d alternations [each also as first / last alternative next to a literal], '
                      '%d exemplars by `constraint` and by `let`) x %s; int range bounds spelled by names, arithmetic, tuple fields'
                      % (len(REACH_FORMS), 'all' if thorough else 'seeded 4 + 2', len(REACH_RANGES), len(REACH_ALTS), len(REACH_EXEMPLARS),
                         'all deciding values (lo-1, lo, hi, hi+1, every literal and its neighbours, other types), literal and 3 computed' if thorough else '6 seeded deciding values'))
